@@ -21,6 +21,7 @@ type tierSpec struct {
 	MaxSteps     int            `json:"max_steps"`
 	MaxSplit     int            `json:"max_split"`
 	PreemptBound int            `json:"preempt_bound"`
+	FreeSwitch   int            `json:"free_switch_bound"`
 	MaxPaths     int            `json:"max_paths"`
 	TimeoutMs    int            `json:"timeout_ms"`
 	BudgetS      int            `json:"budget_s"`
@@ -186,25 +187,26 @@ func cmdRun(args []string) int {
 			ts.Params = np
 		}
 		cfg := &sx.Config{
-			Dir:          filepath.Join(verifRoot, "engine"),
-			Patterns:     h.Patterns,
-			EntryPkg:     h.Pkg,
-			Entry:        h.Entry,
-			RepoPrefixes: []string{"github.com/godaddy/asherah", "verifh/h", "verifh/vx"},
-			Allowed:      h.Allowed,
-			MaxSteps:     orDefault(ts.MaxSteps, 3000000),
-			MaxSplit:     orDefault(ts.MaxSplit, 64),
-			PreemptBound: ts.PreemptBound,
-			Workers:      *workers,
-			TimeoutMs:    orDefault(ts.TimeoutMs, 20000),
-			MaxPaths:     ts.MaxPaths,
-			KnownIDs:     knownIDs,
-			Verbose:      *verbose,
-			Params:       ts.Params,
-			Overlay:      map[string][]byte{},
-			Seed:         seed,
-			CrossEvery:   97,
-			CrossMax:     8,
+			Dir:             filepath.Join(verifRoot, "engine"),
+			Patterns:        h.Patterns,
+			EntryPkg:        h.Pkg,
+			Entry:           h.Entry,
+			RepoPrefixes:    []string{"github.com/godaddy/asherah", "verifh/h", "verifh/vx"},
+			Allowed:         h.Allowed,
+			MaxSteps:        orDefault(ts.MaxSteps, 3000000),
+			MaxSplit:        orDefault(ts.MaxSplit, 64),
+			PreemptBound:    ts.PreemptBound,
+			FreeSwitchBound: ts.FreeSwitch,
+			Workers:         *workers,
+			TimeoutMs:       orDefault(ts.TimeoutMs, 20000),
+			MaxPaths:        ts.MaxPaths,
+			KnownIDs:        knownIDs,
+			Verbose:         *verbose,
+			Params:          ts.Params,
+			Overlay:         map[string][]byte{},
+			Seed:            seed,
+			CrossEvery:      97,
+			CrossMax:        8,
 		}
 		if *tier == "thorough" {
 			cfg.CrossEvery, cfg.CrossMax = 13, 200
@@ -482,6 +484,9 @@ func mergeTier(q, t tierSpec) tierSpec {
 	}
 	if t.PreemptBound != 0 {
 		out.PreemptBound = t.PreemptBound
+	}
+	if t.FreeSwitch != 0 {
+		out.FreeSwitch = t.FreeSwitch
 	}
 	if t.MaxPaths != 0 {
 		out.MaxPaths = t.MaxPaths
